@@ -815,6 +815,20 @@ def generate_error_buffer(seed, tie='prng'):
             'tie': tie, 'seed': seed, 'max_events': 20000, 'profile': 'error_buffer'}
 
 
+def generate_mass_release(i, tie='prng'):
+    """Scale: about 1100 parts mature in one buffer at the same instant and leave it in one event."""
+    n = [1080, 1150, 1300][i % 3]
+    items = [{'id': 'S1', 'kind': 'source', 'ct': 0, 'budget': n, 'values': [1], 'qualities': [1]},
+             {'id': 'B2', 'kind': 'buffer', 'up': ['S1'], 'cap': None, 'delay': [1, 0.5, 2][i % 3]}]
+    if (i // 3) % 2:
+        items.append({'id': 'B3', 'kind': 'buffer', 'up': ['B2'], 'cap': None, 'delay': 0})
+        items.append({'id': 'K4', 'kind': 'sink', 'up': ['B3'], 'ct': 0, 'collect': False})
+    else:
+        items.append({'id': 'K3', 'kind': 'sink', 'up': ['B2'], 'ct': 0, 'collect': False})
+    return {'resources': {}, 'items': items, 'horizon': [4.0], 'script': [], 'tie': tie, 'seed': i,
+            'max_events': 40000, 'profile': 'mass_release'}
+
+
 def generate_decimal_buffer(i, tie='prng'):
     """One-decimal sweep: source (cycle c) -> buffer (minimum delay d) -> sink, every (c, d) with c in 0.1..0.9 and d
     in 0.1..3.0, long enough for 250 parts: the buffer's wake-ups for queued parts are computed as
